@@ -69,6 +69,7 @@ theorem generated_proc_sem_good_c04 : Proc.good procSem := by decide
 
 
 
+
 -- BEGIN PINS (written by bin/mkpins; do not edit by hand)
 /-- the Go functions this property's model and obligations were written against have exactly the
 pinned skeletons (SHA-256 prefix of the atom list) -/
@@ -131,7 +132,7 @@ theorem pinned_skeletons_c04 :
      ("Scipipe.Process_InParam", "c8e48924f704b354"),
      ("Scipipe.Process_Out", "a8336ddcad83e773"),
      ("Scipipe.Process_OutParam", "c9bda6ebf69a5f59"),
-     ("Scipipe.Process_Run", "05880ea16e590fb1"),
+     ("Scipipe.Process_Run", "40f832903317f455"),
      ("Scipipe.Process_createTasks", "8c856d9ef4492f5d"),
      ("Scipipe.Workflow_NewProc", "0c40600b4fc86df2"),
      ("Scipipe.getBufsize", "65b7d390dc0d0c72"),
